@@ -67,6 +67,8 @@ pub struct Cfg {
     pub postr: Vec<bool>,
     pub postc: Vec<bool>,
     pub rt: bool,
+    /// pool-level timeouts (wait, create, recycle) given to the builder; `Pool::get()` uses them
+    pub pt: [Tmo; 3],
 }
 
 fn hooks_str(h: &[bool]) -> String {
@@ -87,7 +89,7 @@ fn parse_hooks(s: &str) -> Vec<bool> {
 
 impl Cfg {
     pub fn line(&self) -> String {
-        format!(
+        let mut l = format!(
             "cfg managed max={} mode={} pre={} postr={} postc={} rt={}",
             self.max,
             if self.lifo { "lifo" } else { "fifo" },
@@ -95,7 +97,11 @@ impl Cfg {
             hooks_str(&self.postr),
             hooks_str(&self.postc),
             if self.rt { 1 } else { 0 }
-        )
+        );
+        if self.pt != [Tmo::None; 3] {
+            l.push_str(&format!(" pt={}{}{}", self.pt[0].ch(), self.pt[1].ch(), self.pt[2].ch()));
+        }
+        l
     }
     pub fn parse(ws: &[&str]) -> Option<Cfg> {
         let mut c = Cfg {
@@ -105,6 +111,7 @@ impl Cfg {
             postr: vec![],
             postc: vec![],
             rt: false,
+            pt: [Tmo::None; 3],
         };
         for w in ws {
             let (k, v) = w.split_once('=')?;
@@ -115,6 +122,15 @@ impl Cfg {
                 "postr" => c.postr = parse_hooks(v),
                 "postc" => c.postc = parse_hooks(v),
                 "rt" => c.rt = v == "1",
+                "pt" => {
+                    let ch: Vec<char> = v.chars().collect();
+                    if ch.len() != 3 {
+                        return None;
+                    }
+                    for (k, x) in ch.iter().enumerate() {
+                        c.pt[k] = Tmo::parse(&x.to_string())?;
+                    }
+                }
                 _ => return None,
             }
         }
@@ -391,6 +407,8 @@ pub fn try_build(w: Tmo, c: Tmo, r: Tmo, rt: bool) -> &'static str {
 #[derive(Clone, Debug)]
 pub enum Spec {
     Get(Tmo, Tmo, Tmo),
+    /// `Pool::get()`: the pool-level timeouts of the configuration
+    GetDefault,
     Ret(u64),
     /// the object is dropped while its holder is unwinding from a panic
     RetUnwind(u64),
@@ -405,6 +423,7 @@ impl Spec {
     pub fn line(&self) -> String {
         match self {
             Spec::Get(w, c, r) => format!("start get {} {} {}", w.ch(), c.ch(), r.ch()),
+            Spec::GetDefault => "start get d".into(),
             Spec::Ret(id) => format!("start ret {}", id),
             Spec::RetUnwind(id) => format!("start ret {} unwinding", id),
             Spec::Take(id) => format!("start take {}", id),
@@ -423,6 +442,7 @@ impl Spec {
     }
     pub fn parse(ws: &[&str]) -> Option<Spec> {
         Some(match ws {
+            ["get", "d"] => Spec::GetDefault,
             ["get", w, c, r] => Spec::Get(Tmo::parse(w)?, Tmo::parse(c)?, Tmo::parse(r)?),
             ["ret", id] => Spec::Ret(id.parse().ok()?),
             ["ret", id, "unwinding"] => Spec::RetUnwind(id.parse().ok()?),
@@ -551,11 +571,12 @@ impl World {
         // (a deterministic function of the configuration, so that replays agree)
         let style = (cfg.max + cfg.pre.len() + 2 * cfg.postr.len() + 3 * cfg.postc.len() + cfg.lifo as usize) % 4;
         let mut b = Pool::<Mgr>::builder(mgr);
+        let pt = Timeouts { wait: cfg.pt[0].dur(), create: cfg.pt[1].dur(), recycle: cfg.pt[2].dur() };
         b = match style {
-            0 => b.config(PoolConfig { max_size: cfg.max, timeouts: Timeouts::new(), queue_mode: mode }),
-            1 => b.max_size(cfg.max).queue_mode(mode),
-            2 => b.queue_mode(mode).max_size(cfg.max),
-            _ => b.queue_mode(mode).timeouts(Timeouts::new()).max_size(cfg.max).wait_timeout(None).create_timeout(None).recycle_timeout(None),
+            0 => b.config(PoolConfig { max_size: cfg.max, timeouts: pt, queue_mode: mode }),
+            1 => b.max_size(cfg.max).queue_mode(mode).timeouts(pt),
+            2 => b.create_timeout(pt.create).queue_mode(mode).recycle_timeout(pt.recycle).max_size(cfg.max).wait_timeout(pt.wait),
+            _ => b.queue_mode(mode).timeouts(Timeouts::new()).max_size(cfg.max).wait_timeout(pt.wait).create_timeout(pt.create).recycle_timeout(pt.recycle),
         };
         if cfg.rt {
             b = b.runtime(Runtime::Tokio1);
@@ -654,6 +675,7 @@ impl World {
         let released = self.released.clone();
         let (label, kind) = match spec {
             Spec::Get(w, c, r) => ("get.enter", OpKind::Get(*w, *c, *r)),
+            Spec::GetDefault => ("get.enter", OpKind::Get(self.cfg.pt[0], self.cfg.pt[1], self.cfg.pt[2])),
             Spec::Ret(_) | Spec::RetUnwind(_) => ("ret.users", OpKind::Ret),
             Spec::Take(_) => ("take.users", OpKind::Take),
             Spec::Resize(_) => ("resize.enter", OpKind::Resize),
@@ -699,11 +721,14 @@ impl World {
                 let first = sched.wait_first(i);
                 assert_eq!(first, Outcome::Run);
                 let r = catch_unwind(AssertUnwindSafe(|| match spec {
-                    Spec::Get(w, c, r) => {
-                        let t = Timeouts {
-                            wait: w.dur(),
-                            create: c.dur(),
-                            recycle: r.dur(),
+                    Spec::Get(..) | Spec::GetDefault => {
+                        let explicit = match spec {
+                            Spec::Get(w, c, r) => Some(Timeouts {
+                                wait: w.dur(),
+                                create: c.dur(),
+                                recycle: r.dur(),
+                            }),
+                            _ => None,
                         };
                         let rt = tokio::runtime::Builder::new_current_thread()
                             .enable_time()
@@ -711,7 +736,12 @@ impl World {
                             .build()
                             .unwrap();
                         let res: Result<Object<Mgr>, String> = rt.block_on(async {
-                            let mut fut = Box::pin(pool.timeout_get(&t));
+                            // `get()` (pool-level timeouts) or `timeout_get()` (per-call timeouts)
+                            type Fut<'a> = std::pin::Pin<Box<dyn Future<Output = Result<Object<Mgr>, PoolError<()>>> + 'a>>;
+                            let mut fut: Fut<'_> = match &explicit {
+                                Some(t) => Box::pin(pool.timeout_get(t)),
+                                None => Box::pin(pool.get()),
+                            };
                             let mut cx = Context::from_waker(&waker);
                             loop {
                                 flag.0.store(false, Ordering::SeqCst);
